@@ -141,7 +141,7 @@ def check_tree(tree, styles, stats, with_model=True):
         if with_model and style in ("and/or", "&|"):
             for k in range(1, len(genes) + 1):
                 for R in itertools.combinations(genes, k):
-                    for rr in (False, True):
+                    for rr, observed in ((False, False), (True, False), (False, True)):
                         stats["evaluations"] += 1
                         m = Model("m")
                         rx = Reaction("r1", lower_bound=0, upper_bound=10)
@@ -155,6 +155,11 @@ def check_tree(tree, styles, stats, with_model=True):
                             rx.gene_reaction_rule = text
                             r0.gene_reaction_rule = genes[0]
                             m.add_reactions([r0, rx])
+                            if observed:
+                                # the rule has been compared / converted before the removal (derived forms exist)
+                                rx.gpr == GPR.from_string(text)
+                                rx.gpr.as_symbolic()
+                                str(rx.gpr)
                             try:
                                 remove_genes(m, list(R), remove_reactions=rr)
                             except Exception as exc:
@@ -186,6 +191,20 @@ def check_tree(tree, styles, stats, with_model=True):
                                 break
                         if sorted(g.id for g in m.reactions.r1.genes) != sorted(new.genes):
                             bad("reaction.genes differ from the new rule's genes", f"R={R}", remove_reactions=rr)
+                        # every derived form of the edited rule describes the edited rule
+                        tnew = table_of(new, rest)
+                        with warnings.catch_warnings():
+                            warnings.simplefilter("ignore")
+                            forms = [] if (rr and not observed) else [("from_symbolic(as_symbolic())", GPR.from_symbolic(new.as_symbolic())),
+                                     ("from_string(to_string())", GPR.from_string(new.to_string())),
+                                     ("copy()", new.copy())]
+                        for fname, g2 in (forms if (observed or not rr) else ()):
+                            if not set(g2.genes) <= set(rest) or table_of(g2, rest) != tnew:
+                                bad("after remove_genes, %s differs from the rule" % fname,
+                                    f"R={R}: rule {new.to_string()!r}, form {g2.to_string()!r}", remove_reactions=rr, observed=observed)
+                            elif not (g2 == new):
+                                bad("after remove_genes, %s does not compare equal to the rule" % fname,
+                                    f"R={R}: rule {new.to_string()!r}", remove_reactions=rr, observed=observed)
     return out
 
 
